@@ -17,67 +17,6 @@ const (
 	cbPkg   = "golang.org/x/crypto/cryptobyte"
 )
 
-// hashInputs: for a hash.Hash value h (result of a constructor call), the
-// arguments of all Write calls / io.Copy sources that feed it.
-func hashInputs(fn *ssa.Function, h ssa.Value) (writes []ssa.Value, copies []ssa.Value) {
-	for _, f := range withAnon(fn) {
-		instrsOf(f, func(i ssa.Instruction) {
-			call, ok := i.(ssa.CallInstruction)
-			if !ok {
-				return
-			}
-			cc := call.Common()
-			if cc.IsInvoke() && resolveCell(cc.Value) == h && cc.Method.Name() == "Write" {
-				writes = append(writes, resolveCell(cc.Args[0]))
-			}
-			if id := ir.CallID(call); (id == "io.Copy" || id == "io.CopyN") && resolveCell(ir.StripIface(cc.Args[0])) == h {
-				copies = append(copies, resolveCell(cc.Args[1]))
-			}
-		})
-	}
-	return
-}
-
-// sha256SumOf: v is h.Sum(nil) of a SHA-256 hash; returns the hash value.
-func (c *Ctx) sha256SumOf(v ssa.Value) (h ssa.Value, ok bool, why string) {
-	v = resolveCell(v)
-	call, isC := v.(*ssa.Call)
-	if !isC {
-		return nil, false, "not the result of a Sum call"
-	}
-	if id := ir.CallID(call); id == "crypto/sha256.Sum256" {
-		return nil, false, "sha256.Sum256 form"
-	}
-	if !call.Call.IsInvoke() || call.Call.Method.Name() != "Sum" {
-		return nil, false, "not hash.Hash.Sum"
-	}
-	if !ir.IsNilConst(call.Call.Args[0]) {
-		return nil, false, "Sum is given a non-nil prefix"
-	}
-	h = resolveCell(call.Call.Value)
-	// h may be a phi / reassigned variable: resolve through the constructor
-	ctor, isCtor := h.(*ssa.Call)
-	if !isCtor {
-		return h, false, "the hash is not a directly constructed value"
-	}
-	switch ir.CallID(ctor) {
-	case "crypto/sha256.New":
-		return h, true, ""
-	case "crypto.Hash.New":
-		k, isK := ir.ConstInt(ctor.Call.Args[0])
-		want, _ := c.constInt("crypto", "SHA256")
-		if isK && k == want {
-			return h, true, ""
-		}
-		// hash chosen by a parameter: acceptable only if the caller passes SHA-256; reported by the caller's rule
-		if _, isParam := ctor.Call.Args[0].(*ssa.Parameter); isParam {
-			return h, true, "param"
-		}
-		return h, false, "hash algorithm is not SHA-256"
-	}
-	return h, false, "unknown hash constructor " + ir.CallID(ctor)
-}
-
 // resolveCell follows loads of single-assignment local cells (parameters and
 // locals spilled because closures capture them) to the value stored.
 func resolveCell(v ssa.Value) ssa.Value {
@@ -107,29 +46,169 @@ func resolveCell(v ssa.Value) ssa.Value {
 	return v
 }
 
-// tagValue evaluates asn1.Tag expressions: constants and the
-// ContextSpecific()/Constructed() methods.
-func tagValue(v ssa.Value) (int64, bool) {
+// hashInputs (single function form, used by C01/J4): Write arguments and
+// io.Copy sources feeding hash value h inside fn.
+func hashInputs(fn *ssa.Function, h ssa.Value) (writes []ssa.Value, copies []ssa.Value) {
+	for _, f := range withAnon(fn) {
+		instrsOf(f, func(i ssa.Instruction) {
+			call, ok := i.(ssa.CallInstruction)
+			if !ok {
+				return
+			}
+			cc := call.Common()
+			if cc.IsInvoke() && resolveCell(cc.Value) == h && cc.Method.Name() == "Write" {
+				writes = append(writes, resolveCell(cc.Args[0]))
+			}
+			if id := ir.CallID(call); (id == "io.Copy" || id == "io.CopyN") && resolveCell(ir.StripIface(cc.Args[0])) == h {
+				copies = append(copies, resolveCell(cc.Args[1]))
+			}
+		})
+	}
+	return
+}
+
+// digestInfo describes a digest value found in a deep view: which hash, and the
+// (resolved) inputs that were fed to it.
+type digestInfo struct {
+	ok     bool
+	why    string
+	sha256 bool
+	byParm bool // algorithm chosen by a parameter
+	algo   dval
+	inputs []dval
+	copies []dval
+}
+
+// digestOf resolves a value to a digest computation: h.Sum(nil) of a
+// constructed hash (inputs = all Write/io.Copy feeding that hash anywhere in
+// the view), or sha256.Sum256(x) (possibly sliced).
+func (d *deepView) digestOf(v ssa.Value, fr *frame) digestInfo {
+	r := d.resolve(v, fr)
+	val := r.v
+	// d[:] of an array filled by Sum256
+	if sl, ok := val.(*ssa.Slice); ok {
+		if a, ok := sl.X.(*ssa.Alloc); ok {
+			var stored ssa.Value
+			n := 0
+			d.eachStoreTo(a, r.fr, func(st *ssa.Store, f *frame) { stored, n = st.Val, n+1 })
+			if n == 1 {
+				val = stored
+			}
+		}
+	}
+	call, isC := val.(*ssa.Call)
+	if !isC {
+		return digestInfo{why: "not the result of a hash computation"}
+	}
+	switch ir.CallID(call) {
+	case "crypto/sha256.Sum256":
+		return digestInfo{ok: true, sha256: true, inputs: []dval{d.resolve(call.Call.Args[0], r.fr)}}
+	}
+	if !call.Call.IsInvoke() || call.Call.Method.Name() != "Sum" {
+		return digestInfo{why: "not hash.Hash.Sum / sha256.Sum256"}
+	}
+	if !ir.IsNilConst(call.Call.Args[0]) {
+		return digestInfo{why: "Sum is given a non-nil prefix"}
+	}
+	h := d.resolve(call.Call.Value, r.fr)
+	ctor, isCtor := h.v.(*ssa.Call)
+	if !isCtor {
+		return digestInfo{why: "the hash is not a directly constructed value"}
+	}
+	out := digestInfo{ok: true}
+	switch ir.CallID(ctor) {
+	case "crypto/sha256.New":
+		out.sha256 = true
+	case "crypto.Hash.New":
+		out.algo = d.resolve(ctor.Call.Args[0], h.fr)
+		k, isK := ir.ConstInt(out.algo.v)
+		want, _ := d.c.constInt("crypto", "SHA256")
+		switch {
+		case isK && k == want:
+			out.sha256 = true
+		case isK:
+			return digestInfo{why: "hash algorithm is not SHA-256"}
+		default:
+			out.byParm = true
+		}
+	default:
+		return digestInfo{why: "unknown hash constructor " + ir.CallID(ctor)}
+	}
+	// everything fed to that hash object
+	for _, di := range d.order {
+		call, ok := di.i.(ssa.CallInstruction)
+		if !ok {
+			continue
+		}
+		cc := call.Common()
+		if cc.IsInvoke() && cc.Method.Name() == "Write" && d.resolve(cc.Value, di.fr).same(h) {
+			out.inputs = append(out.inputs, d.resolve(cc.Args[0], di.fr))
+		}
+		if id := ir.CallID(call); id == "io.Copy" || id == "io.CopyN" || id == "io.CopyBuffer" {
+			if d.resolve(ir.StripIface(cc.Args[0]), di.fr).same(h) {
+				out.copies = append(out.copies, d.resolve(ir.StripIface(cc.Args[1]), di.fr))
+				if id == "io.CopyBuffer" {
+					out.why = "fed through io.CopyBuffer"
+				}
+			}
+		}
+	}
+	return out
+}
+
+// tagValue evaluates asn1.Tag expressions: constants, the
+// ContextSpecific()/Constructed() methods and package-level tag variables.
+func (c *Ctx) tagValue(v ssa.Value, depth int) (int64, bool) {
+	if depth > 6 {
+		return 0, false
+	}
 	if n, ok := evalConst(v); ok {
 		return n, true
 	}
-	if call, ok := v.(*ssa.Call); ok {
-		switch ir.CallID(call) {
+	switch x := v.(type) {
+	case *ssa.Call:
+		switch ir.CallID(x) {
 		case cbPkg + "/asn1.Tag.ContextSpecific":
-			n, ok := tagValue(call.Call.Args[0])
+			n, ok := c.tagValue(x.Call.Args[0], depth+1)
 			return n | 0x80, ok
 		case cbPkg + "/asn1.Tag.Constructed":
-			n, ok := tagValue(call.Call.Args[0])
+			n, ok := c.tagValue(x.Call.Args[0], depth+1)
 			return n | 0x20, ok
 		}
+	case *ssa.UnOp:
+		if g, ok := x.X.(*ssa.Global); ok && x.Op == token.MUL && g.Pkg != nil {
+			var val ssa.Value
+			stores := map[*ssa.Store]bool{}
+			fns := append([]*ssa.Function{}, c.P.LibFunctions()...)
+			if init := g.Pkg.Func("init"); init != nil {
+				fns = append(fns, init)
+			}
+			for _, f := range fns {
+				if f.Pkg != g.Pkg {
+					continue
+				}
+				instrsOf(f, func(i ssa.Instruction) {
+					if st, ok := i.(*ssa.Store); ok && st.Addr == ssa.Value(g) {
+						val = st.Val
+						stores[st] = true
+					}
+				})
+			}
+			if len(stores) == 1 {
+				return c.tagValue(val, depth+1)
+			}
+		}
+	case *ssa.Convert:
+		return c.tagValue(x.X, depth+1)
 	}
 	return 0, false
 }
 
 // builderShape renders the nesting of cryptobyte builder calls made on builder
-// parameter/variable b inside fn (a closure or the top-level function).
-func (c *Ctx) builderShape(fn *ssa.Function, b ssa.Value, depth int) string {
-	if depth > 12 {
+// value b (in frame fr): closures handed to AddASN1 and library helpers that
+// receive the builder are expanded in place.
+func (d *deepView) builderShape(fr *frame, b ssa.Value, depth int) string {
+	if depth > 14 || fr == nil {
 		return "…"
 	}
 	type item struct {
@@ -137,35 +216,46 @@ func (c *Ctx) builderShape(fn *ssa.Function, b ssa.Value, depth int) string {
 		text string
 	}
 	var items []item
-	instrsOf(fn, func(i ssa.Instruction) {
+	instrsOf(fr.fn, func(i ssa.Instruction) {
 		call, ok := i.(*ssa.Call)
-		if !ok || len(call.Call.Args) == 0 || call.Call.Args[0] != b {
+		if !ok {
 			return
+		}
+		cond := ""
+		if depth > 0 && len(ir.DominatingConds(fr.fn, call.Block())) > 0 {
+			cond = "?"
 		}
 		id := ir.CallID(call)
 		if !strings.HasPrefix(id, cbPkg+".Builder.") {
+			// a library helper that receives the builder: expand it
+			if child := d.frameOfCall(fr, call); child != nil {
+				for k, a := range call.Call.Args {
+					if a == b && k < len(child.fn.Params) {
+						inner := d.builderShape(child, child.fn.Params[k], depth+1)
+						if inner != "" {
+							if cond != "" {
+								inner = cond + inner
+							}
+							items = append(items, item{call.Pos(), inner})
+						}
+					}
+				}
+			}
+			return
+		}
+		if len(call.Call.Args) == 0 || call.Call.Args[0] != b {
 			return
 		}
 		m := strings.TrimPrefix(id, cbPkg+".Builder.")
-		cond := ""
-		if depth > 0 && len(ir.DominatingConds(fn, call.Block())) > 0 {
-			cond = "?"
-		}
-		switch m {
-		case "Bytes", "BytesOrPanic", "SetError":
-			return // finalisers are not part of the emitted structure
-		}
 		var text string
 		switch m {
+		case "Bytes", "BytesOrPanic", "SetError":
+			return
 		case "AddASN1":
-			tag, okT := tagValue(call.Call.Args[1])
+			tag, okT := d.c.tagValue(d.resolve(call.Call.Args[1], fr).v, 0)
 			inner := "?"
-			if mc, ok := ir.StripConv(call.Call.Args[2]).(*ssa.MakeClosure); ok {
-				if f, ok := mc.Fn.(*ssa.Function); ok && len(f.Params) == 1 {
-					inner = c.builderShape(f, f.Params[0], depth+1)
-				}
-			} else if f, ok := ir.StripConv(call.Call.Args[2]).(*ssa.Function); ok && len(f.Params) == 1 {
-				inner = c.builderShape(f, f.Params[0], depth+1)
+			if cf := d.closureFrameOf(call.Call.Args[2], fr); cf != nil && len(cf.fn.Params) == 1 {
+				inner = d.builderShape(cf, cf.fn.Params[0], depth+1)
 			}
 			t := "?"
 			if okT {
@@ -173,18 +263,18 @@ func (c *Ctx) builderShape(fn *ssa.Function, b ssa.Value, depth int) string {
 			}
 			text = fmt.Sprintf("T%s{%s}", t, inner)
 		case "AddASN1ObjectIdentifier":
-			text = "OID(" + c.describeValue(call.Call.Args[1]) + ")"
+			text = "OID(" + d.describe(call.Call.Args[1], fr) + ")"
 		case "AddASN1Int64":
-			n, _ := evalConst(call.Call.Args[1])
+			n, _ := evalConst(d.resolve(call.Call.Args[1], fr).v)
 			text = fmt.Sprintf("INT(%d)", n)
 		case "AddASN1NULL":
 			text = "NULL"
 		case "AddASN1BigInt":
-			text = "BIGINT(" + c.describeValue(call.Call.Args[1]) + ")"
+			text = "BIGINT(" + d.describe(call.Call.Args[1], fr) + ")"
 		case "AddASN1OctetString":
-			text = "OCTET(" + c.describeValue(call.Call.Args[1]) + ")"
+			text = "OCTET(" + d.describe(call.Call.Args[1], fr) + ")"
 		case "AddBytes":
-			text = "BYTES(" + c.describeValue(call.Call.Args[1]) + ")"
+			text = "BYTES(" + d.describe(call.Call.Args[1], fr) + ")"
 		case "AddASN1UTCTime":
 			text = "UTCTIME"
 		case "AddASN1BitString":
@@ -206,30 +296,24 @@ func (c *Ctx) builderShape(fn *ssa.Function, b ssa.Value, depth int) string {
 	return strings.Join(p, " ")
 }
 
-// describeValue names a value by the global / parameter / field it is loaded from.
-func (c *Ctx) describeValue(v ssa.Value) string {
-	v = ir.StripConv(v)
-	if r := resolveCell(v); r != v {
-		if p, ok := r.(*ssa.Parameter); ok {
-			return p.Name()
-		}
-	}
-	if ld, ok := v.(*ssa.UnOp); ok && ld.Op == token.MUL {
+// describe names a value by the global / root parameter / field it resolves to.
+func (d *deepView) describe(v ssa.Value, fr *frame) string {
+	r := d.resolve(ir.StripConv(v), fr)
+	x := ir.StripConv(r.v)
+	if ld, ok := x.(*ssa.UnOp); ok && ld.Op == token.MUL {
 		if g, ok := ld.X.(*ssa.Global); ok {
 			return g.Name()
 		}
 		if id := ir.FieldID(ld.X); id != "" {
 			return id[strings.LastIndex(id, ".")+1:]
 		}
-		if fv, ok := ld.X.(*ssa.FreeVar); ok {
-			return fv.Name()
-		}
 	}
-	switch x := v.(type) {
-	case *ssa.Parameter:
-		return x.Name()
-	case *ssa.FreeVar:
-		return x.Name()
+	if p, ok := x.(*ssa.Parameter); ok && r.fr == d.root {
+		return p.Name()
+	}
+	if f, ok := x.(*ssa.Field); ok {
+		id := ir.FieldID(f)
+		return id[strings.LastIndex(id, ".")+1:]
 	}
 	return "·"
 }
@@ -240,41 +324,44 @@ func checkC05(c *Ctx) {
 		return
 	}
 	fname := name(fn)
+	dv := c.deepViewOf(fn, 3)
+	dv.stopAt = map[string]bool{pkcsPkg + ".Attributes.Marshal": true}
 	contentP := paramBytes(fn)
 	oidP := paramByNamed(fn, "encoding/asn1.ObjectIdentifier")
 	certP := certParam(fn)
+	isRoot := func(r dval, p *ssa.Parameter) bool {
+		return p != nil && r.fr == dv.root && ir.StripConv(r.v) == ssa.Value(p)
+	}
+
 	// ---- L1: attributes
-	var attrsObj ssa.Value
 	var bad []string
-	instrsOf(fn, func(i ssa.Instruction) {
-		st, ok := i.(*ssa.Store)
-		if !ok {
-			return
+	var attrsObj dval
+	haveAttrs := false
+	for _, di := range dv.storesToField(pkcsPkg + ".Attributes.MessageDigest") {
+		st := di.i.(*ssa.Store)
+		attrsObj, haveAttrs = dv.resolve(st.Addr.(*ssa.FieldAddr).X, di.fr), true
+		dg := dv.digestOf(st.Val, di.fr)
+		switch {
+		case !dg.ok:
+			bad = append(bad, "messageDigest is not a SHA-256 digest: "+dg.why)
+		case !dg.sha256:
+			bad = append(bad, "messageDigest is not computed with SHA-256")
+		case len(dg.copies) != 0 || len(dg.inputs) != 1 || !isRoot(dg.inputs[0], contentP):
+			bad = append(bad, "the hash behind messageDigest is not fed with exactly the content parameter, unsliced")
 		}
-		switch ir.FieldID(st.Addr) {
-		case pkcsPkg + ".Attributes.MessageDigest":
-			attrsObj = st.Addr.(*ssa.FieldAddr).X
-			h, ok, why := c.sha256SumOf(st.Val)
-			if !ok || why == "param" {
-				bad = append(bad, "messageDigest is not a SHA-256 Sum(nil): "+why)
-				return
-			}
-			ws, cps := hashInputs(fn, h)
-			if len(cps) != 0 || len(ws) != 1 || ws[0] != ssa.Value(contentP) {
-				bad = append(bad, "the hash behind messageDigest is not fed with exactly the content parameter, unsliced")
-			}
-		case pkcsPkg + ".Attributes.ContentType":
-			if resolveCell(st.Val) != ssa.Value(oidP) {
-				bad = append(bad, "the contentType attribute is not the oid parameter")
-			}
-		case pkcsPkg + ".Attributes.SigningTime":
-			sl := c.Slicer().Slice(st.Val)
-			if len(ir.CallsIn(sl, "time.Time.UTC")) == 0 {
-				bad = append(bad, "signingTime is not a UTC time")
-			}
+	}
+	for _, di := range dv.storesToField(pkcsPkg + ".Attributes.ContentType") {
+		if !isRoot(dv.resolve(di.i.(*ssa.Store).Val, di.fr), oidP) {
+			bad = append(bad, "the contentType attribute is not the oid parameter")
 		}
-	})
-	if attrsObj == nil {
+	}
+	for _, di := range dv.storesToField(pkcsPkg + ".Attributes.SigningTime") {
+		sl := dv.sliceDeep(di.i.(*ssa.Store).Val, di.fr)
+		if len(ir.CallsIn(sl, "time.Time.UTC")) == 0 {
+			bad = append(bad, "signingTime is not a UTC time")
+		}
+	}
+	if !haveAttrs {
 		bad = append(bad, "no Attributes value with a messageDigest is built")
 	}
 	c.R.Check(len(bad) == 0, "L1.attrs", fname, "signed-attributes", c.Pos(fn.Pos()), "signed attributes carry contentType = oid and messageDigest = SHA-256(content)", strings.Join(bad, "; "))
@@ -282,131 +369,109 @@ func checkC05(c *Ctx) {
 	// ---- L2: what is signed
 	bad = nil
 	var signCall ssa.CallInstruction
-	var attributes ssa.Value
-	for _, f := range withAnon(fn) {
-		instrsOf(f, func(i ssa.Instruction) {
-			if call, ok := i.(ssa.CallInstruction); ok && call.Common().IsInvoke() && dependencyKind(call.Common().Value.Type()) == "signer" && call.Common().Method.Name() == "Sign" {
-				signCall = call
-			}
-		})
+	var signFr *frame
+	for _, di := range dv.order {
+		if call, ok := di.i.(ssa.CallInstruction); ok && call.Common().IsInvoke() && dependencyKind(call.Common().Value.Type()) == "signer" && call.Common().Method.Name() == "Sign" {
+			signCall, signFr = call, di.fr
+		}
 	}
-	if signCall == nil {
-		// a helper may wrap the signer call
-		instrsOf(fn, func(i ssa.Instruction) {
-			if call, ok := i.(*ssa.Call); ok {
-				if callee := ir.Callee(call); callee != nil && c.P.InLib(callee) && c.reachesSigner(callee) {
-					signCall = call
-				}
-			}
-		})
-	}
-	var sigVal ssa.Value
+	var attributes dval
+	haveAttrBytes := false
+	var sigVal dval
+	haveSig := false
 	if signCall == nil {
 		bad = append(bad, "no call of the caller's signer found")
 	} else {
 		args := signCall.Common().Args
-		var digest, opts ssa.Value
-		if signCall.Common().IsInvoke() && len(args) == 3 {
-			digest, opts = args[1], args[2]
-		} else {
-			// helper: find the digest-typed argument
-			for _, a := range args {
-				if _, isSum := a.(*ssa.Call); isSum && digest == nil {
-					if _, ok2, _ := c.sha256SumOf(a); ok2 {
-						digest = a
-					}
-				}
-			}
-		}
-		if v, ok := signCall.(*ssa.Call); ok {
-			for _, r := range *v.Referrers() {
-				if ex, ok := r.(*ssa.Extract); ok && ex.Index == 0 {
-					sigVal = ex
-				}
-			}
-		}
-		if digest == nil {
-			bad = append(bad, "the digest handed to the signer is not identifiable")
-		} else if h, ok, why := c.sha256SumOf(digest); !ok || why == "param" {
-			bad = append(bad, "the signer is not given a SHA-256 Sum(nil): "+why)
-		} else {
-			ws, cps := hashInputs(fn, h)
-			if len(cps) != 0 || len(ws) != 1 {
-				bad = append(bad, "the signed hash has more than one input")
-			} else {
-				attributes = ws[0]
-				mc, isCall := attributes.(*ssa.Call)
-				if !isCall || ir.CallID(mc) != pkcsPkg+".Attributes.Marshal" {
-					bad = append(bad, "the signed hash is not computed over the attribute encoder's output (Attributes.Marshal)")
-				} else if attrsObj != nil && ir.StripConv(mc.Call.Args[0]) != ir.StripConv(attrsObj) {
+		dg := dv.digestOf(args[1], signFr)
+		switch {
+		case !dg.ok:
+			bad = append(bad, "the signer is not given a digest: "+dg.why)
+		case !dg.sha256:
+			bad = append(bad, "the signer is not given a SHA-256 digest")
+		case len(dg.copies) != 0 || len(dg.inputs) != 1:
+			bad = append(bad, "the signed hash has more than one input")
+		default:
+			attributes, haveAttrBytes = dg.inputs[0], true
+			mc, isCall := attributes.v.(*ssa.Call)
+			if !isCall || ir.CallID(mc) != pkcsPkg+".Attributes.Marshal" {
+				bad = append(bad, "the signed hash is not computed over the attribute encoder's output (Attributes.Marshal)")
+			} else if haveAttrs {
+				recv := dv.resolve(ir.StripConv(mc.Call.Args[0]), attributes.fr)
+				if !recv.same(attrsObj) && ir.StripConv(recv.v) != ir.StripConv(attrsObj.v) {
 					bad = append(bad, "the attributes that are signed are not the ones that carry the messageDigest")
 				}
 			}
 		}
-		if opts != nil {
-			mi := ir.StripIface(opts)
-			k, isK := ir.ConstInt(mi)
-			want, _ := c.constInt("crypto", "SHA256")
-			if !isK || k != want {
-				bad = append(bad, "SignerOpts is not crypto.SHA256")
+		k, isK := ir.ConstInt(ir.StripIface(dv.resolve(ir.StripIface(args[2]), signFr).v))
+		want, _ := c.constInt("crypto", "SHA256")
+		if !isK || k != want {
+			bad = append(bad, "SignerOpts is not crypto.SHA256")
+		}
+		if v, ok := signCall.(*ssa.Call); ok {
+			for _, r := range *v.Referrers() {
+				if ex, ok := r.(*ssa.Extract); ok && ex.Index == 0 {
+					sigVal, haveSig = dval{ex, signFr}, true
+				}
 			}
 		}
 	}
 	c.R.Check(len(bad) == 0, "L2.signed", fname, "signer-input", c.Pos(fn.Pos()), "the signer signs SHA-256 over the DER SET of exactly those attributes, with opts = crypto.SHA256", strings.Join(bad, "; "))
 
-	// ---- L3/L4: what is embedded
+	// ---- L3: what is embedded
 	bad = nil
-	var addBytes []*ssa.Call
-	var octets []*ssa.Call
-	var bigints []*ssa.Call
-	for _, f := range withAnon(fn) {
-		instrsOf(f, func(i ssa.Instruction) {
-			if call, ok := i.(*ssa.Call); ok {
-				switch ir.CallID(call) {
-				case cbPkg + ".Builder.AddBytes":
-					addBytes = append(addBytes, call)
-				case cbPkg + ".Builder.AddASN1OctetString":
-					octets = append(octets, call)
-				case cbPkg + ".Builder.AddASN1BigInt":
-					bigints = append(bigints, call)
-				}
+	foundAttrs, foundIssuer, foundRaw, foundContent, okSerial, okSig := false, false, false, false, false, false
+	for _, di := range dv.order {
+		call, ok := di.i.(*ssa.Call)
+		if !ok {
+			continue
+		}
+		id := ir.CallID(call)
+		if !strings.HasPrefix(id, cbPkg+".Builder.") || len(call.Call.Args) < 2 || dv.underStop(di.fr) {
+			continue
+		}
+		arg := call.Call.Args[1]
+		s := dv.sliceDeep(arg, di.fr)
+		switch id {
+		case cbPkg + ".Builder.AddBytes":
+			if ir.HasField(s, "crypto/x509.Certificate.RawSubject") {
+				bad = append(bad, "the signer is named by the certificate's subject instead of its issuer")
 			}
-		})
-	}
-	sl := func(v ssa.Value) map[ssa.Value]bool { s := c.Slicer(); return s.Slice(v) }
-	foundAttrs, foundIssuer, foundRaw, foundContent := false, false, false, false
-	for _, ab := range addBytes {
-		s := sl(ab.Call.Args[1])
-		switch {
-		case attributes != nil && s[attributes]:
-			foundAttrs = true
-			// must go through a parse of the SET, not through a constant slice offset
-			parsed := false
-			for v := range s {
-				if call, ok := v.(*ssa.Call); ok && strings.HasPrefix(ir.CallID(call), cbPkg+".String.ReadASN1") {
-					parsed = true
-				}
-			}
-			for v := range s {
-				if sx, ok := v.(*ssa.Slice); ok && (sx.Low != nil || sx.High != nil) && s[attributes] {
-					if sx.X == attributes || ir.StripConv(sx.X) == attributes {
-						parsed = false
-						bad = append(bad, "the SET header of the encoded attributes is stripped by slicing a fixed number of bytes (wrong for lengths >= 128)")
+			switch {
+			case haveAttrBytes && s[attributes.v]:
+				foundAttrs = true
+				parsed := false
+				for v := range s {
+					if cl, ok := v.(*ssa.Call); ok && strings.HasPrefix(ir.CallID(cl), cbPkg+".String.ReadASN1") {
+						parsed = true
 					}
 				}
+				for v := range s {
+					if sx, ok := v.(*ssa.Slice); ok && (sx.Low != nil || sx.High != nil) {
+						if base := ir.StripConv(resolveCell(sx.X)); base == attributes.v {
+							parsed = false
+							bad = append(bad, "the SET header of the encoded attributes is stripped by slicing a fixed number of bytes (wrong for lengths >= 128)")
+						}
+					}
+				}
+				if !parsed {
+					bad = append(bad, "the bytes under [0] authenticatedAttributes are not obtained by parsing the encoded SET")
+				}
+			case certP != nil && s[certP] && ir.HasField(s, "crypto/x509.Certificate.RawIssuer"):
+				foundIssuer = true
+			case certP != nil && s[certP] && ir.HasField(s, "crypto/x509.Certificate.Raw"):
+				foundRaw = true
+			case contentP != nil && s[contentP]:
+				foundContent = true
 			}
-			if !parsed {
-				bad = append(bad, "the bytes under [0] authenticatedAttributes are not obtained by parsing the encoded SET")
+		case cbPkg + ".Builder.AddASN1BigInt":
+			if certP != nil && s[certP] && ir.HasField(s, "crypto/x509.Certificate.SerialNumber") {
+				okSerial = true
 			}
-		case certP != nil && s[certP] && ir.HasField(s, "crypto/x509.Certificate.RawIssuer"):
-			foundIssuer = true
-		case certP != nil && s[certP] && ir.HasField(s, "crypto/x509.Certificate.Raw"):
-			foundRaw = true
-		case contentP != nil && s[contentP]:
-			foundContent = true
-		}
-		if ir.HasField(s, "crypto/x509.Certificate.RawSubject") {
-			bad = append(bad, "the signer is named by the certificate's subject instead of its issuer")
+		case cbPkg + ".Builder.AddASN1OctetString":
+			if haveSig && s[sigVal.v] {
+				okSig = true
+			}
 		}
 	}
 	if !foundAttrs {
@@ -421,21 +486,8 @@ func checkC05(c *Ctx) {
 	if !foundContent {
 		bad = append(bad, "the content is not embedded for non-detached signatures")
 	}
-	okSerial := false
-	for _, bi := range bigints {
-		s := sl(bi.Call.Args[1])
-		if certP != nil && s[certP] && ir.HasField(s, "crypto/x509.Certificate.SerialNumber") {
-			okSerial = true
-		}
-	}
 	if !okSerial {
 		bad = append(bad, "the serial number is not encoded with AddASN1BigInt(cert.SerialNumber)")
-	}
-	okSig := false
-	for _, oc := range octets {
-		if sigVal != nil && sl(oc.Call.Args[1])[sigVal] {
-			okSig = true
-		}
 	}
 	if !okSig {
 		bad = append(bad, "encryptedDigest is not the signer's result")
@@ -443,34 +495,17 @@ func checkC05(c *Ctx) {
 	c.R.Check(len(bad) == 0, "L3.embedded", fname, "embedded-values", c.Pos(fn.Pos()), "the blob embeds the hashed attribute bytes, cert.RawIssuer + serial, cert.Raw, the content and the signature", strings.Join(bad, "; "))
 
 	// ---- L5: emitter schema
-	var top ssa.Value
-	instrsOf(fn, func(i ssa.Instruction) {
-		if call, ok := i.(*ssa.Call); ok && ir.CallID(call) == cbPkg+".Builder.AddASN1" && call.Parent() == fn {
-			top = call.Call.Args[0]
-		}
-	})
-	shape := ""
-	if top != nil {
-		shape = c.builderShape(fn, top, 0)
-	}
+	shape := normaliseShape(c.topBuilderShape(dv))
 	const alg = "T0x30{OID(OIDDigestAlgorithmSHA256) NULL}"
 	want := "T0x30{OID(OIDSignedData) T0xa0{T0x30{INT(1) T0x31{" + alg + "} T0x30{OID(oid) ?T0xa0{T0x30{BYTES(content)}}} T0xa0{BYTES(Raw)} " +
-		"T0x31{T0x30{INT(1) T0x30{BYTES(RawIssuer) BIGINT(SerialNumber)} " + alg + " T0xa0{BYTES(·)} T0x30{OID(OIDEncryptionAlgorithmRSA) NULL} OCTET(sig)}}}}}"
+		"T0x31{T0x30{INT(1) T0x30{BYTES(RawIssuer) BIGINT(SerialNumber)} " + alg + " T0xa0{BYTES(·)} T0x30{OID(OIDEncryptionAlgorithmRSA) NULL} OCTET(·)}}}}}"
 	c.R.Check(shape == want, "L5.schema", fname, "SignedData-shape", c.Pos(fn.Pos()), "the emitter nests ContentInfo / SignedData / SignerInfo as RFC 2315 defines (tags, order, SHA-256 and RSA OIDs, version 1)",
 		"emitter shape is\n      "+shape+"\n   want\n      "+want)
 
 	// ---- the attribute encoder
 	if m := c.Fn("L5.schema", "pkcs7.(*Attributes).Marshal"); m != nil {
-		var b ssa.Value
-		instrsOf(m, func(i ssa.Instruction) {
-			if call, ok := i.(*ssa.Call); ok && ir.CallID(call) == cbPkg+".Builder.AddASN1" && call.Parent() == m {
-				b = call.Call.Args[0]
-			}
-		})
-		shape := ""
-		if b != nil {
-			shape = c.builderShape(m, b, 0)
-		}
+		dm := c.deepViewOf(m, 3)
+		shape := normaliseShape(c.topBuilderShape(dm))
 		wantA := "T0x31{T0x30{OID(OIDAttributeContentType) T0x31{OID(ContentType)}} ?T0x30{OID(OIDAttributeSigningTime) T0x31{UTCTIME}} T0x30{OID(OIDAttributeMessageDigest) T0x31{OCTET(MessageDigest)}} ?T0x30{OID(Type) T0x31{BYTES(Bytes)}}}"
 		c.R.Check(shape == wantA, "L5.schema", name(m), "Attributes-shape", c.Pos(m.Pos()), "the attribute encoder emits SET{contentType, [signingTime], messageDigest, others...}",
 			"encoder shape is\n      "+shape+"\n   want\n      "+wantA)
@@ -478,53 +513,51 @@ func checkC05(c *Ctx) {
 
 	// ---- L6: Authenticode content
 	if sa := c.Fn("L6.spc", "authenticode.SignAuthenticode"); sa != nil {
+		ds := c.deepViewOf(sa, 2)
 		var bad []string
-		var call *ssa.Call
-		instrsOf(sa, func(i ssa.Instruction) {
-			if cl, ok := i.(*ssa.Call); ok && ir.CallID(cl) == pkcsPkg+".SignPKCS7" {
-				call = cl
-			}
-		})
-		if call == nil {
-			bad = append(bad, "SignPKCS7 is not called")
+		calls := ds.callsTo(pkcsPkg + ".SignPKCS7")
+		if len(calls) != 1 {
+			bad = append(bad, "SignPKCS7 is not called exactly once")
 		} else {
-			if !isGlobalLoad(call.Call.Args[2], M+"/authenticode.OIDSpcIndirectDataContent") {
+			call, cfr := calls[0].i.(*ssa.Call), calls[0].fr
+			if !isGlobalLoad(ds.resolve(call.Call.Args[2], cfr).v, M+"/authenticode.OIDSpcIndirectDataContent") {
 				bad = append(bad, "content type is not SpcIndirectDataContent")
 			}
-			s := c.Slicer().Slice(call.Call.Args[3])
-			spc := ir.CallsIn(s, M+"/authenticode.CreateSpcIndirectDataContent")
-			if len(spc) == 0 {
+			var spc *ssa.Call
+			var spcFr *frame
+			for _, di := range ds.callsTo(M + "/authenticode.CreateSpcIndirectDataContent") {
+				spc, spcFr = di.i.(*ssa.Call), di.fr
+			}
+			if spc == nil {
 				bad = append(bad, "content is not built by CreateSpcIndirectDataContent")
 			} else {
-				h, ok, _ := c.sha256SumOf(spc[0].Call.Args[0])
-				if !ok {
-					bad = append(bad, "the digest placed in SpcIndirectDataContent is not a Sum(nil) of the constructed hash")
-				} else {
-					ws, cps := hashInputs(sa, h)
-					rd := paramByNamed(sa, "io.Reader")
-					if len(ws) != 0 || len(cps) != 1 || rd == nil || cps[0] != ssa.Value(rd) {
-						bad = append(bad, "the hash is not fed by io.Copy from the digest reader parameter only")
+				content := ds.resolve(call.Call.Args[3], cfr)
+				if s := ds.sliceDeep(content.v, content.fr); !s[spc] {
+					// the content may be the resolved return value inside the constructor's frame
+					if content.fr == nil || !strings.Contains(content.fr.id, "CreateSpcIndirectDataContent") {
+						bad = append(bad, "the content passed to SignPKCS7 does not come from CreateSpcIndirectDataContent")
 					}
 				}
+				dg := ds.digestOf(spc.Call.Args[0], spcFr)
+				rd := paramByNamed(sa, "io.Reader")
+				switch {
+				case !dg.ok:
+					bad = append(bad, "the digest placed in SpcIndirectDataContent is not a hash result: "+dg.why)
+				case len(dg.inputs) != 0 || len(dg.copies) != 1 || rd == nil || !(dg.copies[0].fr == ds.root && dg.copies[0].v == ssa.Value(rd)):
+					bad = append(bad, "the hash is not fed by io.Copy from the digest reader parameter only")
+				case dg.why != "":
+					bad = append(bad, "the hash is "+dg.why)
+				}
 			}
-			if cp := certParam(sa); cp == nil || resolveCell(call.Call.Args[1]) != ssa.Value(cp) {
+			if cp := certParam(sa); cp == nil || !(ds.resolve(call.Call.Args[1], cfr).v == ssa.Value(cp)) {
 				bad = append(bad, "the certificate is not passed through")
 			}
 		}
 		c.R.Check(len(bad) == 0, "L6.spc", name(sa), "authenticode-content", c.Pos(sa.Pos()), "the Authenticode content is SpcIndirectDataContent over the hash of the image reader, signed with the given certificate", strings.Join(bad, "; "))
 	}
-	// the digest OID inside SpcIndirectDataContent is SHA-256 and the digest parameter is what is embedded
 	if sp := c.Fn("L6.spc", "authenticode.CreateSpcIndirectDataContent"); sp != nil {
-		var b ssa.Value
-		instrsOf(sp, func(i ssa.Instruction) {
-			if call, ok := i.(*ssa.Call); ok && ir.CallID(call) == cbPkg+".Builder.AddASN1" && call.Parent() == sp {
-				b = call.Call.Args[0]
-			}
-		})
-		shape := ""
-		if b != nil {
-			shape = c.builderShape(sp, b, 0)
-		}
+		dp := c.deepViewOf(sp, 3)
+		shape := normaliseShape(c.topBuilderShape(dp))
 		ok := strings.HasSuffix(shape, "T0x30{T0x30{OID(OIDDigestAlgorithmSHA256) NULL} OCTET(digest)}") && strings.HasPrefix(shape, "T0x30{OID(OIDSpcPEImageDataObjID) ")
 		c.R.Check(ok, "L6.spc", name(sp), "DigestInfo-shape", c.Pos(sp.Pos()), "SpcIndirectDataContent is SpcPeImageData followed by DigestInfo{sha256, NULL, digest parameter}", "shape is "+shape)
 	}
@@ -536,4 +569,102 @@ func checkC05(c *Ctx) {
 	c.R.Floor("L5.schema", 2)
 	c.R.Floor("L6.spc", 2)
 	c.R.Floor("C2.surface", 1)
+}
+
+// topBuilderShape: the shape emitted on the builder that the anchor function
+// finalises (the one whose Bytes/BytesOrPanic result it returns), wherever in
+// the view that builder is filled.
+func (c *Ctx) topBuilderShape(dv *deepView) string {
+	var b dval
+	found := false
+	for _, di := range dv.order {
+		if call, ok := di.i.(*ssa.Call); ok {
+			id := ir.CallID(call)
+			if id == cbPkg+".Builder.Bytes" || id == cbPkg+".Builder.BytesOrPanic" {
+				b, found = dv.objectOf(call.Call.Args[0], di.fr), true
+			}
+		}
+	}
+	if !found {
+		return ""
+	}
+	var parts []string
+	for _, fr := range dv.framesInOrder() {
+		if fr.site == nil && fr != dv.root {
+			continue // closures are expanded through AddASN1
+		}
+		if fr.parent != nil && fr.site != nil {
+			// helper frames are expanded from their caller when they receive the builder;
+			// only frames that own the builder (or the root) start a shape
+			owns := false
+			if a, ok := b.v.(*ssa.Alloc); ok && a.Parent() == fr.fn && b.fr == fr {
+				owns = true
+			}
+			if cl, ok := b.v.(*ssa.Call); ok && cl.Parent() == fr.fn && b.fr == fr {
+				owns = true
+			}
+			if !owns {
+				continue
+			}
+		}
+		seen := map[ssa.Value]bool{}
+		instrsOf(fr.fn, func(i ssa.Instruction) {
+			call, ok := i.(*ssa.Call)
+			if !ok || len(call.Call.Args) == 0 {
+				return
+			}
+			id := ir.CallID(call)
+			isBuilderCall := strings.HasPrefix(id, cbPkg+".Builder.")
+			passes := false
+			var bv ssa.Value
+			if isBuilderCall {
+				bv = call.Call.Args[0]
+			} else if child := dv.frameOfCall(fr, call); child != nil {
+				for _, a := range call.Call.Args {
+					if ir.NamedTypeID(a.Type()) == cbPkg+".Builder" && dv.objectOf(a, fr).same(b) {
+						bv, passes = a, true
+					}
+				}
+			}
+			if bv == nil || seen[bv] || !dv.objectOf(bv, fr).same(b) {
+				return
+			}
+			_ = passes
+			seen[bv] = true
+			if sh := dv.builderShape(fr, bv, 0); sh != "" {
+				parts = append(parts, sh)
+			}
+		})
+	}
+	return strings.Join(parts, " ")
+}
+
+// underStop: the frame belongs to the activation of a stopAt callee.
+func (d *deepView) underStop(fr *frame) bool {
+	for f := fr; f != nil; f = f.parent {
+		if f.site != nil && d.stopAt[ir.CallID(f.site)] {
+			return true
+		}
+	}
+	return false
+}
+
+func (d *deepView) framesInOrder() []*frame {
+	seen := map[*frame]bool{}
+	var out []*frame
+	for _, di := range d.order {
+		if !seen[di.fr] {
+			seen[di.fr] = true
+			out = append(out, di.fr)
+		}
+	}
+	return out
+}
+
+// normaliseShape names the signature byte source uniformly.
+func normaliseShape(s string) string {
+	for _, n := range []string{"sig", "signature", "encryptedDigest"} {
+		s = strings.ReplaceAll(s, "OCTET("+n+")", "OCTET(·)")
+	}
+	return s
 }
